@@ -229,9 +229,12 @@ def select_line(g, manifest_id, adopt, names):
 # scenario generation
 
 
-def gen_graph(rng, nmax=10, cyclic=False, pools=True, validations=True, phony=True):
-    """returns (manifest_text, info) ; info: builds list with outs/ins names, sources, pools"""
-    n = rng.randint(1, nmax)
+def gen_graph(rng, nmax=10, cyclic=False, pools=True, validations=True, phony=True, wide=None):
+    """returns (manifest_text, info) ; info: builds list with outs/ins names, sources, pools.
+    wide: many mutually independent steps (several become ready at once, pools and -j under pressure)"""
+    if wide is None:
+        wide = rng.random() < 0.3
+    n = rng.randint(1, nmax) if not wide else rng.randint(4, max(6, nmax + 4))
     nsrc = rng.randint(1, 4)
     sources = ["s%d" % i for i in range(nsrc)]
     pool_decl = []
@@ -248,6 +251,8 @@ def gen_graph(rng, nmax=10, cyclic=False, pools=True, validations=True, phony=Tr
         all_outs.append(outs)
     for i, b in enumerate(builds):
         cand = [o for k in range(i) for o in all_outs[k]]
+        if wide and rng.random() < 0.8:
+            cand = []
         if cyclic and rng.random() < 0.25:
             cand = [o for k in range(n) for o in all_outs[k]]
 
@@ -264,7 +269,7 @@ def gen_graph(rng, nmax=10, cyclic=False, pools=True, validations=True, phony=Tr
             b["validation"] = [rng.choice(allo) for _ in range(rng.randint(1, 2))]
         b["phony"] = phony and rng.random() < 0.15
         b["pool"] = None
-        if pool_decl and rng.random() < 0.5 and not b["phony"]:
+        if pool_decl and rng.random() < (0.7 if wide else 0.5) and not b["phony"]:
             b["pool"] = rng.choice(pool_decl)[0]
         elif rng.random() < 0.05 and not b["phony"]:
             b["pool"] = rng.choice(["console", "nosuchpool"])
@@ -548,6 +553,28 @@ def monitor_c05(run, where, inv, j, k, adopt=False):
                     run.report_failure(None, "step %d recorded as up to date without a successful finish" % ev[1], where)
     if any_fail and inv.result.startswith("ok:"):
         run.report_failure(None, "a command failed but the invocation reports success", where)
+    # keep going: while the budget is not used up, everything not downstream of a failure is still brought up to date
+    if inv.result == "fail" and phs:
+        last = phs[-1]
+        g = last["graph"]
+        nfail = sum(1 for ev in last["log"] if ev[0] == "finish" and ev[2] == 1)
+        interrupted = any(ev[0] == "finish" and ev[2] == 2 for ev in last["log"])
+        running_at_end = set()
+        for ev in last["log"]:
+            if ev[0] == "start":
+                running_at_end.add(ev[1])
+            elif ev[0] == "finish":
+                running_at_end.discard(ev[1])
+        if not interrupted and (k is None or nfail < k):
+            if running_at_end:
+                run.report_failure(None, "the invocation ended after a failure while commands %r were still running and the -k budget was not used up" % sorted(running_at_end), where)
+            failed_steps = {b for b, st in last["states"].items() if st == "Failed"}
+            for b, st in last["states"].items():
+                if st in ("Done", "Failed"):
+                    continue
+                if not (g.transitive(b, g.ordering_producers) & failed_steps):
+                    run.report_failure(None, "step %d is not downstream of any failed step and the -k budget was not used up, but it was left %s" % (b, st), where)
+                    break
     if inv.result.startswith("ok:") and phs:
         last = phs[-1]
         for b, st in last["states"].items():
